@@ -137,6 +137,29 @@ def run(pid, tier, seed):
         chk.rel("corr.oracle.conforms", (g == "true") == e, {"type": tt, "value": dd, "python": e, "lean": g})
         chk.count("oracle.%s" % ("true" if e else "false"))
 
+    # values that contain themselves (outside the model's value grammar, which is a grammar of trees): inference must still
+    # terminate without error and admit the value (`conforms` follows the finite type, so it terminates on a cyclic value)
+    import collections
+
+    def cyclic_values():
+        l = [1]; l.append(l)
+        d = {"kids": [], "up": None}; c = {"kids": [], "up": d}; d["kids"].append(c)
+        t = ([],); t[0].append(t)
+        dd = collections.defaultdict(list); dd["x"].append(dd)
+        m = {1: None}; m[1] = [m, "s"]
+        return [("list-in-itself", l), ("dict-tree-with-parent-links", d), ("tuple-list-cycle", t), ("defaultdict-cycle", dd),
+                ("int-keyed-dict-cycle", m), ("two-cyclic-values", [l, d])]
+    for name, v in cyclic_values():
+        for k in (0, 3):
+            chk.evaluations += 1
+            chk.count("cyclic." + name)
+            try:
+                t = eng.impl_infer([v], k)
+                if not oracle.conforms(v, t):
+                    chk.fail("member", {"k": k, "cyclic_value": name, "type": repr(t)[:300]})
+            except BaseException as e:
+                chk.fail("terminates", {"k": k, "cyclic_value": name, "error": repr(e)[:200]})
+
     def search(broken):
         """intensified failing-input search after a broken obligation / correspondence"""
         t0 = time.time()
